@@ -118,7 +118,66 @@ func (oc *obligCtx) nonNeg(f *Facts, v ssa.Value) bool {
 	if bo, ok := stripNumConv(v).(*ssa.BinOp); ok && bo.Op == token.ADD {
 		return oc.nonNeg(f, bo.X) && oc.nonNeg(f, bo.Y)
 	}
-	return false
+	// a result of a module function that returns a non-negative value on every path (an index handed
+	// back by a scan helper: 0, i+1, len(children))
+	if ph, ok := stripNumConv(v).(*ssa.Phi); ok {
+		for _, e := range ph.Edges {
+			if _, isConst := e.(*ssa.Const); isConst {
+				if k, ok := constInt(e); !ok || k < 0 {
+					return false
+				}
+				continue
+			}
+			if !oc.resultNonNeg(e) && !f.nonNeg(e) && !(stripNumConv(e) != nil && oc.incOfPhi(stripNumConv(e), ph)) {
+				return false
+			}
+		}
+		return len(ph.Edges) > 0
+	}
+	return oc.resultNonNeg(v)
+}
+
+// incOfPhi: e is ph + k (k ≥ 0): the increment of the loop counter itself.
+func (oc *obligCtx) incOfPhi(e ssa.Value, ph *ssa.Phi) bool {
+	bo, ok := e.(*ssa.BinOp)
+	if !ok || bo.Op != token.ADD {
+		return false
+	}
+	k, isC := constInt(bo.Y)
+	return isC && k >= 0 && bo.X == ssa.Value(ph)
+}
+
+func (oc *obligCtx) resultNonNeg(v ssa.Value) bool {
+	idx := 0
+	var call *ssa.Call
+	switch x := stripNumConv(v).(type) {
+	case *ssa.Extract:
+		call, _ = x.Tuple.(*ssa.Call)
+		idx = x.Index
+	case *ssa.Call:
+		call = x
+	}
+	if call == nil {
+		return false
+	}
+	g := call.Call.StaticCallee()
+	if g == nil || !oc.c.inModule(g) || len(g.Blocks) == 0 {
+		return false
+	}
+	n := 0
+	good := true
+	allInstrs(g, func(in ssa.Instruction) {
+		ret, ok := in.(*ssa.Return)
+		if !ok || idx >= len(ret.Results) {
+			return
+		}
+		n++
+		rv := ret.Results[idx]
+		if !rangeCounter(rv) && !FactsAt(ret).nonNeg(rv) {
+			good = false
+		}
+	})
+	return good && n > 0
 }
 
 // paramNonNeg: every call site of the function in the module passes a non-negative value
